@@ -26,7 +26,12 @@ EXPLANATION += (
     " H6: every value handed to wrap_shared_ptr / the shared-return template is the callee's own shared pointer passed through or a std::make_shared copy, never a shared_ptr constructed around an address. H7: no compute-once table in the MATLAB wrapper is keyed by a mere projection of what its value is computed from (e.g. enum names per namespace *name*), so marshalling decisions depend on the declaration at hand only.")
 EXPLANATION += (
     " H9: the two builders of the .m dispatch conditions (methods / static methods and constructors / free functions) append the same per-argument tests - class test and the fixed-shape tests of Vector, Point2, Point3 - keyed by the declared C++ type, so the argument values select the same overload whatever kind of callable is dispatched (rule shared with C06 M2).")
-ASSUMPTIONS = ["the .m files are the only client of the gateway (ids reach routines as decided by C05)",
+EXPLANATION += (
+    " H13: in the routine of a pair-returning callable every read of the pair names the element selected for the output position being written. "
+    "H14: every id allocation site carries its role and embeds the id as the gateway call's first argument; an id without a map entry exists "
+    "only as the up-cast slot of a virtual class (the replay loops read any other hole as one and route the neighbouring id to an up-cast "
+    "helper) - shared with C05 I3/I4.")
+ASSUMPTIONS = ["the .m files are the only client of the gateway (the replay loops are decided by C05 I5)",
                "clang/stubs as in C18"]
 
 
@@ -48,4 +53,9 @@ def run(ctx, rep):
     rep.run(RH2.rule_wide_integers_read_exactly, ctx, rep, "H12")
     rep.run(RID.rule_roles, ctx, rep, "H12")
     rep.run(RF.rule_memo_key_complete, ctx, rep, "H7", packages=("gtwrap/matlab_wrapper",), min_functions=50)
+    rep.run(RM.rule_pair_element_by_position, ctx, rep, "H13")
+    # H14: the id a .m function passes selects the routine of the same entity - every allocated id carries its role, the
+    # only id without an entry is the up-cast slot of a virtual class (rules shared with C05 I3 / I4)
+    rep.run(RID.rule_sites, ctx, rep, "H14", min_sites=11)
+    rep.run(RID.rule_offsets, ctx, rep, "H14")
     rep.run(RF.rule_locals_defined, ctx, rep, "U1", packages=("gtwrap/matlab_wrapper",), min_functions=3)
